@@ -794,7 +794,9 @@ def run_case(cls, params, rec):
 				"end": [l[2] for l in case["loci"]]}
 			if case["extra_col"]:
 				d["name"] = ["peak%d" % i for i in range(len(case["loci"]))]
-			return pandas.DataFrame(d)
+			# index labels as after sort_values / sample without reset_index
+			return gen.reindex(pandas.DataFrame(d), "C17", case["loci"][:3],
+				len(case["loci"]))
 
 		# call history: an earlier call on the same files and settings with
 		# OTHER input loci (whatever it caches or leaves behind must not
